@@ -71,15 +71,21 @@ func gen(prop, tier string, r *Rng, out *bufio.Writer, st *Stats) {
 	switch prop {
 	case "C01":
 		genC01(w, r, tier)
+		genC01Long(w, r, tier)
 		genChLen(g, r, tier, 1)
 	case "C02":
 		genC02(w, r, tier)
+		genC02Long(w, r, tier)
 	case "C03":
 		genC03(w, r, tier)
+		genC03Long(w, r, tier)
+		genC03Thresholds(w, r, tier)
 	case "C04":
 		genC04(w, r, tier)
+		genC04Long(w, r, tier)
 	case "C05":
 		genC05(w, r, tier)
+		genC05Long(w, r, tier)
 		genF2F(g, r, tier)
 	case "C06":
 		genQuant(g, r, tier, false)
@@ -99,10 +105,12 @@ func gen(prop, tier string, r *Rng, out *bufio.Writer, st *Stats) {
 		genC10(w, r, tier)
 	case "C12":
 		genC12(w, r, tier)
+		genC12Overlap(w, r, tier)
 	case "C13":
 		genC13(w, r, tier)
 	case "C14":
 		genC14(w, r, tier)
+		genC14Long(w, r, tier)
 	case "C15":
 		genC15(w, r, tier)
 	case "C16":
